@@ -10,7 +10,11 @@ CONSTANTS
   MaxQ = 2
   MaxId = 1
   KaVals = {0}
-  EndKinds = {"eof", "stall"}
+  XQs = {}
+  XfrIds = {}
+  XfrAll = FALSE
+  QVars = {101, 201, 301, 401}
+  EndKinds = {"eof"}
   Frames <- MCFrames
 SPECIFICATION MacroSpec
 VIEW View
